@@ -249,31 +249,37 @@ func (a Attr) UnmarshalToType(data []byte) (any, error) {
 			v = v.(int)
 		}
 	case AttrTypeInt8:
-		v, err = strconv.Atoi(string(data))
+		// The bit size makes ParseInt reject values that do not fit
+		// instead of letting the conversion wrap around.
+		v, err = strconv.ParseInt(string(data), 10, 8)
 
 		if a.Nullable {
-			n := int8(v.(int))
+			n := int8(v.(int64))
 			v = &n
 		} else {
-			v = int8(v.(int))
+			v = int8(v.(int64))
 		}
 	case AttrTypeInt16:
-		v, err = strconv.Atoi(string(data))
+		// The bit size makes ParseInt reject values that do not fit
+		// instead of letting the conversion wrap around.
+		v, err = strconv.ParseInt(string(data), 10, 16)
 
 		if a.Nullable {
-			n := int16(v.(int))
+			n := int16(v.(int64))
 			v = &n
 		} else {
-			v = int16(v.(int))
+			v = int16(v.(int64))
 		}
 	case AttrTypeInt32:
-		v, err = strconv.Atoi(string(data))
+		// The bit size makes ParseInt reject values that do not fit
+		// instead of letting the conversion wrap around.
+		v, err = strconv.ParseInt(string(data), 10, 32)
 
 		if a.Nullable {
-			n := int32(v.(int))
+			n := int32(v.(int64))
 			v = &n
 		} else {
-			v = int32(v.(int))
+			v = int32(v.(int64))
 		}
 	case AttrTypeInt64:
 		v, err = strconv.Atoi(string(data))
